@@ -54,7 +54,8 @@ Feed(s, line) ==
                  LET e == Ev(r.v, 1, [s.st EXCEPT !.fuel = Fuel0]) IN
                    CASE e.k = "val" -> [s EXCEPT !.buf = <<>>, !.st = e.st, !.outs = Append(@, OutVal(e.v, e.st))]
                      [] e.k = "thr" -> [s EXCEPT !.buf = <<>>, !.st = e.st, !.outs = Append(@, OutThr(e.v, e.st))]
-                     [] e.k = "err" -> [s EXCEPT !.buf = <<>>, !.st = e.st, !.outs = Append(@, OutErr("eval"))]
+                     \* (the class of the host error: an unnamed one may surface as an error object or as a thrown message)
+                     [] e.k = "err" -> [s EXCEPT !.buf = <<>>, !.st = e.st, !.outs = Append(@, OutErr("eval:" \o e.v.s))]
                      [] OTHER -> [s EXCEPT !.bad = TRUE]
 
 RECURSIVE FeedAll(_, _, _)
